@@ -5,20 +5,29 @@ From Scalibr Require Import Walk.Model Walk.Spec Walk.Sched Walk.Proofs Walk.Tra
 Import ListNotations.
 
 Lemma tree_quiet_dir c n ch df :
-  tree_quiet c (Dir n ch df) = (negb (c_gitignore c) || gi_child_ok ch) && forallb (tree_quiet c) ch.
+  tree_quiet c (Dir n ch df) = (negb (c_gitignore c && c_fatal c) || gi_child_ok ch) && forallb (tree_quiet c) ch.
+Proof. reflexivity. Qed.
+
+Lemma gi_readable_dir c n ch df :
+  gi_readable c (Dir n ch df) = (negb (c_gitignore c) || gi_child_ok ch) && forallb (gi_readable c) ch.
 Proof. reflexivity. Qed.
 
 Definition quiet_or_fserr (c : cfg) (h : hcall) : bool := is_fserr h || call_quiet c h.
 
+Lemma parse_dir_gi_ok p ch : gi_child_ok ch = true -> parse_dir_gi p ch <> GiErr.
+Proof.
+  unfold parse_dir_gi, gi_child_ok.
+  destruct (find_child GI ch) as [[gn gk gs gd gff|gn gl gdf]|]; try discriminate; intros H;
+    apply negb_true_iff in H; rewrite H; discriminate.
+Qed.
+
 Lemma dir_decision_quiet c ms p ch :
-  negb (c_gitignore c) || gi_child_ok ch = true -> dir_decision c ms p ch <> DGiErr.
+  negb (c_gitignore c && c_fatal c) || gi_child_ok ch = true -> dir_decision c ms p ch <> DGiErr.
 Proof.
   intros H. unfold dir_decision. destruct (should_skip_dir c ms p); [discriminate|].
-  destruct (c_gitignore c); [|discriminate]. cbn [negb orb] in H.
-  unfold parse_dir_gi, gi_child_ok in *.
-  destruct (find_child GI ch) as [[gn gk gs gd gff|gn gl gdf]|]; try discriminate.
-  - apply negb_true_iff in H. rewrite H. discriminate.
-  - apply negb_true_iff in H. rewrite H. discriminate.
+  destruct (c_gitignore c); [|discriminate]. cbn [andb] in H.
+  destruct (parse_dir_gi p ch) eqn:E; [|discriminate].
+  destruct (c_fatal c); [|discriminate]. cbn [negb orb] in H. exfalso. exact (parse_dir_gi_ok p ch H E).
 Qed.
 
 Lemma sched_children_quiet c ms' p nd : forall l,
@@ -168,17 +177,9 @@ Proof.
     + apply IH; assumption.
 Qed.
 
-(* ------------------------------------------------------------------ refutation witness *)
+(* the former refutation witness (an unreadable .gitignore), kept as a regression example *)
 Definition c_gi_fault : cfg := with_gitignore base_cfg pat_a.
 Definition t_gi_fault : node := Dc DOT [Dc nB [Ff GI Reg 3 1 true false false; Fc nA Reg 1 0]; Fc nC Reg 1 0].
-
-Lemma unreadable_gitignore_refuted_lemma :
-  exists c t, c_fatal c = false /\ no_limits c = true /\ c_paths c = [] /\ wf_tree t = true /\
-    exists st, fs_result c t = WOk st (Abort AbGi) /\ fs_calls c t = [] /\ fs_calls c (erase_faults t) <> [].
-Proof.
-  exists c_gi_fault, t_gi_fault. repeat split; try reflexivity. eexists. split; [vm_compute; reflexivity|].
-  split; [reflexivity|]. vm_compute. discriminate.
-Qed.
 
 (* ------------------------------------------------------------------ Scan's overall status *)
 Lemma scan_status_lemma c roots r :
